@@ -21,7 +21,7 @@ MANIFEST = {
              '>= 0. interp3d convexity relies on find_interp_indices\' post-condition, recorded as an assumption. Reals, not floats.'),
 }
 EXPLANATION = 'SVN terms of the component writers; sign obligations per cofactor of flow direction under η = 1/(1+τ), τ >= 0.'
-RULES = ['C08-1.effrel', 'C08-2.loss', 'C08-3.outin', 'C08-4.dynbrake', 'C08-5.monotone', 'C08-6.interp', 'C08-7.engineoff']
+RULES = ['C08-1.effrel', 'C08-2.loss', 'C08-3.outin', 'C08-4.dynbrake', 'C08-5.monotone', 'C08-6.interp', 'C08-7.engineoff', 'C08-8.flags']
 ASSUMPTIONS = ['efficiency map values in (0,1]', 'map abscissae strictly increasing', 'dt > 0', 'pwr_idle_fuel, pwr_aux, ratings >= 0',
                'interp3d: find_interp_indices returns bracketing indices (assumption, not proved)']
 
@@ -134,6 +134,9 @@ def run(ctx):
 
     # ------------------------------------------------------------ interpolation stays in the map's range
     interp_rules(ctx)
+    # the engine-off clauses are about the component's `engine_on` argument: the command must reach it unchanged
+    from .common import flag_provenance
+    flag_provenance(ctx, 'C08-8.flags', 'engine_on', floor=15)
 
 
 def state_fields(ctx, tname):
